@@ -659,6 +659,9 @@ func c14Exec(line string) string {
 	if strings.HasPrefix(f[0], "M;") {
 		return c14MultiExec(f)
 	}
+	if strings.HasPrefix(f[0], "W;") {
+		return c14WriteExec(f)
+	}
 	db := c14GetDb()
 	ops := c14ParseOps(f[1])
 	var first string
@@ -1059,5 +1062,6 @@ func c14Gen(tier string, seed uint64, out *bufio.Writer) {
 	c14GenReuse(tier, r, out)
 	c14GenLong(tier, r, out)
 	c14GenMulti(tier, r, out)
+	c14GenWrites(tier, r, out)
 	c14GenBlocks(tier, out)
 }
